@@ -7,6 +7,7 @@ CONSTANTS
   IntVals2 <- FewIntVals
   ArgKinds <- AllArgKinds
   Kinds = {"method", "static"}
+  NameModes <- BothNames
   ConstMethods = TRUE
   Fixed <- NoFix
 INVARIANT TiesHarmless
